@@ -232,6 +232,14 @@ def run_case(key, tier, res):
         res.count("rejected_at_build")
         res.count("rejected_by_recipe_layer:" + type(ex).__name__)
         return
+    if temporal and rng_for(key, "time-model").random() < 0.5:
+        # the time model is a setting of the problem, independent of its actions: a discrete-time temporal problem is written
+        # with :durative-action as well, so the temporal words are keywords of its PDDL text too
+        try:
+            pb.discrete_time = True
+            res.count("temporal_discrete_time")
+        except Exception:
+            pass
     for c in classes:
         res.count("identifier_class:" + c)
     wbase = {"case_key": key, "tier": tier, "recipe": rec}
